@@ -100,15 +100,13 @@ func (st LString) Type() LValueType { return LTString }
 // fmt.Formatter interface
 func (st LString) Format(f fmt.State, c rune) {
 	switch c {
-	case 'd', 'i':
-		if nm, err := parseNumber(string(st)); err != nil {
-			defaultFormat(nm, f, 'd')
-		} else {
-			defaultFormat(string(st), f, 's')
+	case 'd', 'i', 'c', 'o', 'x', 'X', 'e', 'E', 'f', 'g', 'G':
+		if nm, err := parseNumber(string(st)); err == nil {
+			nm.Format(f, c)
+			return
 		}
-	default:
-		defaultFormat(string(st), f, c)
 	}
+	defaultFormat(string(st), f, c)
 }
 
 func (nm LNumber) String() string {
